@@ -168,6 +168,7 @@ macro_rules! impl_read_at {
                 }
 
                 async fn read_vectored_at<T:IoVectoredBufMut>(&self, mut buf: T, pos: u64) -> BufResult<usize, T> {
+                    let pos = pos.min(self.len() as u64);
                     let slice = &self[pos as usize..];
                     let mut this = slice;
 
